@@ -369,6 +369,9 @@ class Sym:
     def __repr__(self):
         return show(self, 200)
 
+    def __format__(self, spec):
+        return show(self, 60)
+
 
 ZERO = const(0)
 ONE = const(1)
